@@ -886,6 +886,11 @@ class StaticGenerativeFunction(Generic[R], GenerativeFunction[R]):
                 bwd_requests,
             ),
         ) = static_edit_request_transform(self.source)(key, trace, addressed, argdiffs)
+        if not Diff.static_check_tree_diff(retval_diffs):
+            # untagged leaves (literals, constants) count as unchanged; tagged leaves keep their change tag
+            retval_diffs = Diff.tree_diff(
+                Diff.tree_primal(retval_diffs), Diff.tree_tangent(retval_diffs)
+            )
 
         def make_bwd_request(
             traces: dict[StaticAddress, Trace[R]],
@@ -928,6 +933,11 @@ class StaticGenerativeFunction(Generic[R], GenerativeFunction[R]):
         ) = regenerate_transform(self.source)(
             key, trace, selection, edit_request, argdiffs
         )
+        if not Diff.static_check_tree_diff(retval_diffs):
+            # untagged leaves (literals, constants) count as unchanged; tagged leaves keep their change tag
+            retval_diffs = Diff.tree_diff(
+                Diff.tree_primal(retval_diffs), Diff.tree_tangent(retval_diffs)
+            )
 
         def make_bwd_request(
             traces: dict[StaticAddress, Trace[R]],
